@@ -149,7 +149,7 @@ Definition check_par (prop : Z) (inp impl : sx) : sx :=
       | _, _, _, _ => badcase
       end
   (* ---- real TCP runs against a loopback target *)
-  | L [A 12; A me; A capab], L [A status; A has_ns; A has_cause_i; A syn; A ackpsh; A accepted; L closes; A tuple_mismatch; A endpoint_mismatch; A leaked] =>
+  | L [A 12; A me; A capab], L [A status; A has_ns; A has_cause_i; A syn; A ackpsh; A accepted; L closes; A tuple_mismatch; A endpoint_mismatch; A drained; A leaked] =>
       let m := d_method me in
       let fault := if capab <=? 1 then FNone else if capab =? 2 then FNoSackPermitted else if capab =? 3 then FAckWithoutSack
                    else if capab =? 4 then FDial injected else if capab =? 5 then FHandshakeNotCaptured else if capab =? 6 then FFilter injected
@@ -176,7 +176,10 @@ Definition check_par (prop : Z) (inp impl : sx) : sx :=
           (if endpoint_mismatch =? 0 then [] else [6; 5])
         else if prop =? 12 then
           (* the 4-tuple filter installed on a handle is the flow of the TCP probes written through that handle *)
-          (if tuple_mismatch =? 0 then [] else [6; 3])
+          (if negb (tuple_mismatch =? 0) then [6; 3]
+           (* installing a capture filter empties the socket first (SetBPFAndDrain): a reply of the target that was already
+              captured - the SYN-ACK, which arrives while connect() is still in progress - must not be among what is thrown away *)
+           else if negb (drained =? 0) then [6; 4] else [])
         else if prop =? 10 then
           (* every handle the run opened is closed exactly once and not used afterwards; a failure yields an error, with its cause *)
           (if negb (forallb (fun s => match s with L [A 1; A 1; A 0] => true | _ => false end) closes) then [10; 1]
@@ -195,6 +198,17 @@ Definition check_par (prop : Z) (inp impl : sx) : sx :=
              && Bool.eqb (0 <? syn) ((fb_syn_calls r =? 1) && negb ((capab =? 7) && (match m with MSyn => true | _ => false end)))
              && (accepted =? (if (fb_sack_calls r =? 1) && negb (capab =? 4) then 1 else 0))
           then verdict V_OK cls [] (L []) else verdict V_DIVERGE cls [] (L [A merr; of_bool mns; of_bool mcause; A (fb_syn_calls r); A (fb_sack_calls r)])
+      end
+  (* ---- one HTTP request end to end: the runs the handler starts are the ones the query states, and the response honours
+          skip-private-hops (C17): the private first hop of the scripted path is in the document iff the flag is off *)
+  | L [A 27; A pr; A me; A q; A e2e; A tmo; A mx; A port; A skip], L [A status; A nreg; A ne2e; L seen; A leak] =>
+      match sx_zs seen with
+      | Some seen =>
+          let want := [tmo * 1000000; pr; me; mx; port; skip; common_DefaultMinTTL; common_DefaultDelay] in
+          if (prop =? 17) && (status =? 0) && (skip =? 1) && (leak =? 1) then verdict V_SPECFAIL 2 [17; 3] (L [])
+          else if (status =? 0) && (nreg =? q) && (ne2e =? e2e) && zl_eqb seen want && (leak =? 1 - skip) then verdict V_OK 2 [] (L [])
+          else if prop =? 19 then verdict V_SPECFAIL 2 [19; 9] (L (map A want)) else verdict V_DIVERGE 2 [] (L (map A want))
+      | None => badcase
       end
   (* ---- command-line flags: the runs started and the parameters they are started with are the ones the flags state *)
   | L [A 25; A pr; A me; A q; A e2e; A tmo; A mx; A port; A rdns; A skip], L [A status; A nreg; A ne2e; L seen] =>
